@@ -860,6 +860,7 @@ type ctx struct {
 	perSig map[string]int // failures reported per signature (the report keeps 200 in total)
 	treeID int            // next id of an EVM tree case
 	layerID int           // next id of a layered-storage case
+	finID   int           // next id of an account-block case (Model/C12_Fin.v)
 }
 
 // evalCase runs one history with all monitors; emit = also write the Coq case.
@@ -922,7 +923,7 @@ func (c *ctx) evalCase(setup int, h []Op, src string, emit bool) {
 		c.rep.Count(fmt.Sprintf("len:%02d-%02d", len(h)/10*10, len(h)/10*10+9))
 		c.rep.Count("src:" + src)
 		term := fmt.Sprintf("CS (%d, (%s, %s, %d), %s, %s)", c.id, base.coreCoq(), base.dirtCoq(), base.Next, hlib.CoqList(pairs), res.fin.sdbCoq(base))
-		c.cw.Add(term, cj)
+		c.addOld(term, cj)
 		c.rep.TracesValidated++
 		c.rep.Sample(cj)
 		c.id++
@@ -1160,8 +1161,8 @@ func main() {
 	rep := hlib.NewReport("C12", "histories of StateDB mutators with nested Snapshot/RevertToSnapshot on the real StateDB over 7 pre-states "+
 		"(corpus incl. the F8 witness, exhaustive prefix+reverted-body sequences over a 22-op alphabet, random long histories); "+
 		"non-trivial = at least one successful revert that undoes journal entries; distinct by (pre-state, set of op kinds, number of such reverts)")
-	cw := hlib.NewCaseWriter(f.Out, "From Coq Require Import List NArith ZArith Bool.\nFrom GQ Require Import Lib.Key Lib.SMap Model.C12.\nImport ListNotations.\nLocal Open Scope N_scope.\n", "C12.case", 65)
-	c := &ctx{rep: rep, cw: cw, perSig: map[string]int{}, treeID: 910000, layerID: 930000}
+	cw := hlib.NewCaseWriter(f.Out, "From Coq Require Import List NArith ZArith Bool.\nFrom GQ Require Import Lib.Key Lib.SMap Model.C12 Model.C12_Fin Model.C12_All.\nImport ListNotations.\nLocal Open Scope N_scope.\n", "C12_All.case", 65)
+	c := &ctx{rep: rep, cw: cw, perSig: map[string]int{}, treeID: 910000, layerID: 930000, finID: 950000}
 
 	if f.Replay != "" {
 		var mode struct {
@@ -1187,6 +1188,13 @@ func main() {
 				c.layerID = lc.ID
 			}
 			c.evalLayer(lc.Base, lc.A, lc.S, lc.Txs, "replay", true)
+		case "fin":
+			var fc FinCase
+			hlib.ReadReplayCase(f.Replay, &fc)
+			if fc.ID >= 0 {
+				c.finID = fc.ID
+			}
+			c.evalFinOne(fc.Base, fc.Txs, fc.Snaps, "replay", fc.ID >= 0)
 		case "block":
 			var bc BlockCase
 			hlib.ReadReplayCase(f.Replay, &bc)
@@ -1253,6 +1261,8 @@ func main() {
 	lap("blocks")
 	layerCases(c, rng2.Fork(), f.Tier == "thorough")
 	lap("layers")
+	finCases(c, rng2.Fork(), f.Tier == "thorough")
+	lap("accounts")
 	al := alphabet()
 	small := append(append([]Op{}, al[:9]...), Op{K: "Suicide", A: 1}, Op{K: "AddBalance", A: 1, V: 2}, Op{K: "AddLog", V: 1})
 	if f.Tier == "thorough" {
